@@ -15,6 +15,16 @@ def main():
     from operon_ai.organelles.mitochondria import Mitochondria, MetabolicPathway
     m = Mitochondria(timeout_seconds=spec["tau"], silent=True)
     pathway = MetabolicPathway[spec["pathway"]] if spec.get("pathway") else None
+    # state carried across calls on ONE engine: earlier calls (rejected, failing, latching the ROS guard, ...) run first, untimed
+    for pre in spec.get("prelude", []):
+        try:
+            if pre == "<repair>":
+                m.repair(10.0)
+            else:
+                m.metabolize(pre.get("expr") if isinstance(pre, dict) else pre,
+                             MetabolicPathway[pre["pathway"]] if isinstance(pre, dict) and pre.get("pathway") else None)
+        except BaseException:  # noqa
+            pass
     t0, c0 = time.time(), time.process_time()
     out = {"status": "returned"}
     try:
